@@ -14,6 +14,9 @@ ROOT = os.path.dirname(os.path.dirname(os.path.abspath(__file__)))
 SPEC = os.path.join(ROOT, "spec")
 HARNESS = os.path.join(ROOT, "harness")
 REPO = os.environ.get("VERIF_REPO", "/repo")
+# artefacts (evidence, replay files) of a run against a scratch copy of the repository (seeded-change trials)
+# go to a scratch directory, so that /verif/evidence always describes /repo itself
+OUT = ROOT if REPO == "/repo" else os.environ.get("VERIF_OUT", os.path.join("/tmp", "verif-out-" + os.path.basename(REPO)))
 TLA_CP = "/opt/veriftools/tla/tla2tools.jar:/opt/veriftools/tla/CommunityModules-deps.jar"
 NCPU = min(16, os.cpu_count() or 4)
 
@@ -110,7 +113,7 @@ def run_harness_race(ctx, args, timeout=3600):
                 if ev.get("ev") == "SchedRun":
                     ev["race"] = True
                 f.write(json.dumps(ev) + "\n")
-        rdir = os.path.join(ROOT, "replays", ctx.prop)
+        rdir = os.path.join(OUT, "replays", ctx.prop)
         os.makedirs(rdir, exist_ok=True)
         with open(os.path.join(rdir, "race-report.txt"), "w") as f:
             f.write(p.stderr[:20000])
@@ -316,7 +319,7 @@ def triage(ctx, rejected, module):
     in which only the listed defect is switched off) or violation."""
     if not rejected:
         return
-    rdir = os.path.join(ROOT, "replays", ctx.prop)
+    rdir = os.path.join(OUT, "replays", ctx.prop)
     for ev, clauses, mod, driver in rejected:
         if any(c in TOOL_CLAUSES for c in clauses):
             raise ToolError("tool-level rejection %s on event %s" % (clauses, json.dumps(ev)[:600]))
@@ -472,7 +475,7 @@ def replay_histories(ctx, histfile, subcmd, module="Trace", chunks=NCPU, limit=N
         if kf:
             note_known(ctx, kf)
             continue
-        rdir = os.path.join(ROOT, "replays", ctx.prop)
+        rdir = os.path.join(OUT, "replays", ctx.prop)
         os.makedirs(rdir, exist_ok=True)
         path = os.path.join(rdir, hashlib.sha1(hist.encode()).hexdigest()[:16] + ".hist.json")
         with open(path, "w") as fo:
@@ -532,8 +535,8 @@ def write_evidence(ctx, level="model_checking", rule="", assumptions=()):
         "wall_s": round(time.time() - ctx.t0, 1),
         "violations": len(ctx.violations),
     }
-    os.makedirs(os.path.join(ROOT, "evidence"), exist_ok=True)
-    with open(os.path.join(ROOT, "evidence", ctx.prop + ".json"), "w") as f:
+    os.makedirs(os.path.join(OUT, "evidence"), exist_ok=True)
+    with open(os.path.join(OUT, "evidence", ctx.prop + ".json"), "w") as f:
         json.dump(ev, f, indent=1)
 
 
